@@ -173,6 +173,10 @@ def membersCtors (members : List Node) : List Ctor :=
     | .mk .tsCtorSig _ _ => ctorInsert (.named "Function") acc
     | _ => ctorInsert (.named "Object") acc) []
 
+/-- an object-like type whose members say nothing else (`{}`, an empty interface) is an Object: the set of constructors of an
+    inhabited type is never empty (an empty `type: []` makes Vue reject EVERY value) -/
+def objectLike (cs : List Ctor) : List Ctor := if cs.isEmpty then [.named "Object"] else cs
+
 /-- the JavaScript constructors of the values of a type -/
 def ctorsOfType (fuel : Nat) (reg : St) (ty : Node) : List Ctor :=
   match fuel with
@@ -185,7 +189,7 @@ def ctorsOfType (fuel : Nat) (reg : St) (ty : Node) : List Ctor :=
       else if k == "bigint" then [.named "BigInt"] else if k == "symbol" then [.named "Symbol"]
       else if k == "any" || k == "unknown" then [.anyValue]
       else [.nullValue]                         -- null, undefined, void, never
-    | .mk .tsTypeLit _ [.mk .list _ members] => membersCtors members
+    | .mk .tsTypeLit _ [.mk .list _ members] => objectLike (membersCtors members)
     | .mk .tsFnType _ _ => [.named "Function"]
     | .mk .tsCtorType _ _ => [.named "Function"]
     | .mk .tsArray _ _ => [.named "Array"]
@@ -210,7 +214,12 @@ def ctorsOfType (fuel : Nat) (reg : St) (ty : Node) : List Ctor :=
       | some t => ctorsOfType fuel reg t
       | none =>
         match lookupReg reg.interfaces (n, b) with
-        | some (.mk .tsIface _ [_, _, _, .mk .tsIfaceBody _ [.mk .list _ members]]) => membersCtors members
+        | some (.mk .tsIface _ [_, _, .mk .list _ ext, .mk .tsIfaceBody _ [.mk .list _ members]]) =>
+          -- own members, then what each parent of the `extends` clause contributes (a callable parent makes it a Function)
+          objectLike (ext.foldl (fun acc p =>
+            match p with
+            | .mk .tsExprWithTypeArgs _ [.mk .ident ias _, targs] => ctorUnion acc (ctorsOfType fuel reg (.mk .tsTypeRef [] [.mk .ident ias [], targs]))
+            | _ => ctorInsert (.named "Object") acc) (membersCtors members))
         | some _ => []
         | none =>
           let ps := typeParamsList tparams
